@@ -353,10 +353,11 @@ func vfGenUpstream(t *rapid.T) *vfUp {
 	if chainFull {
 		ans = append(ans, fmt.Sprintf("www.example.org. %d IN A 192.0.2.10", tA), fmt.Sprintf("www.example.org. %d IN A 192.0.2.11", tA))
 	}
-	u.table[vfUpKey("alias.example.org.", dns.TypeA)] = &vfUpAnswer{Scope: -1, Answer: ans}
-	u.table[vfUpKey("alias.example.org.", dns.TypeCNAME)] = &vfUpAnswer{Scope: -1, Answer: ans[:1]}
+	aliasAD := rapid.Bool().Draw(t, "ad.alias")
+	u.table[vfUpKey("alias.example.org.", dns.TypeA)] = &vfUpAnswer{Scope: -1, Answer: ans, AD: aliasAD}
+	u.table[vfUpKey("alias.example.org.", dns.TypeCNAME)] = &vfUpAnswer{Scope: -1, Answer: ans[:1], AD: aliasAD}
 	tC2 := ttl("ttl.alias2")
-	u.table[vfUpKey("alias2.example.org.", dns.TypeA)] = &vfUpAnswer{Scope: -1, Answer: []string{fmt.Sprintf("alias2.example.org. %d IN CNAME alias.example.org.", tC2)}}
+	u.table[vfUpKey("alias2.example.org.", dns.TypeA)] = &vfUpAnswer{Scope: -1, AD: rapid.Bool().Draw(t, "ad.alias2"), Answer: []string{fmt.Sprintf("alias2.example.org. %d IN CNAME alias.example.org.", tC2)}}
 	// negative answers
 	soaTTL, soaMin := ttl("ttl.soa"), ttl("min.soa")
 	soa := fmt.Sprintf("example.org. %d IN SOA ns.example.org. host.example.org. 1 7200 3600 1209600 %d", soaTTL, soaMin)
